@@ -60,32 +60,38 @@ class Unrepresentable(Exception):
     """A Python value outside the spec's value model (big / inexact numbers...)."""
 
 
-MAXM = 10**9
-MAXE = 40
-
-
 def enc_num(x) -> Dict[str, Any]:
+    """Python number -> the spec's decimal [neg, ds, e].  Integers of any size are exact.  A float is in
+    the model iff its shortest repr has at most 15 significant digits and its magnitude is below 10^15
+    (there decimal order and binary64 order coincide and integral values are exact)."""
     if isinstance(x, bool):
         raise Unrepresentable("bool is not a number")
     if isinstance(x, int):
-        d = Decimal(x)
-    elif isinstance(x, float):
+        neg = x < 0
+        txt = str(abs(x))
+        sig = txt.rstrip("0")
+        if sig == "":
+            return {"k": "num", "neg": False, "ds": [], "e": 0}
+        return {"k": "num", "neg": neg, "ds": [int(c) for c in sig], "e": len(txt) - len(sig)}
+    if isinstance(x, float):
         if x != x or x in (float("inf"), float("-inf")):
             raise Unrepresentable("non-finite float")
         d = Decimal(repr(x))
     else:
         raise Unrepresentable(type(x).__name__)
     sign, digits, exp = d.as_tuple()
-    m = int("".join(map(str, digits)))
+    ds = list(digits)
     e = int(exp)
-    if m == 0:
-        return {"k": "num", "m": 0, "e": 0}
-    while m % 10 == 0:
-        m //= 10
+    while ds and ds[0] == 0:
+        ds.pop(0)
+    while ds and ds[-1] == 0:
+        ds.pop()
         e += 1
-    if m >= MAXM or abs(e) > MAXE:
-        raise Unrepresentable(f"number {x!r} outside the model's range")
-    return {"k": "num", "m": -m if sign else m, "e": e}
+    if not ds:
+        return {"k": "num", "neg": False, "ds": [], "e": 0}
+    if len(ds) > 15 or len(ds) + e > 15 or e < -60:
+        raise Unrepresentable(f"float {x!r} outside the model's exact range")
+    return {"k": "num", "neg": bool(sign), "ds": ds, "e": e}
 
 
 def enc_value(v) -> Dict[str, Any]:
@@ -113,7 +119,11 @@ def enc_value(v) -> Dict[str, Any]:
     raise Unrepresentable(type(v).__name__)
 
 
-def dec_num(m: int, e: int, floaty: bool = False):
+def dec_num(t: Dict[str, Any], floaty: bool = False):
+    m = int("".join(map(str, t["ds"])) or "0")
+    if t["neg"]:
+        m = -m
+    e = t["e"]
     if e >= 0:
         val = m * 10**e
         return float(val) if floaty else val
@@ -127,7 +137,7 @@ def dec_value(t: Dict[str, Any], floaty: bool = False):
     if k == "bool":
         return bool(t["b"])
     if k == "num":
-        return dec_num(t["m"], t["e"], floaty)
+        return dec_num(t, floaty)
     if k == "str":
         return dec_text(t["s"])
     if k == "arr":
